@@ -175,7 +175,7 @@ func TestC09(t *testing.T) {
 }
 
 func TestC10(t *testing.T) {
-	simCheck(t, spec{Prop: "C10", Profiles: []string{"conf"}, Steps: [2]int{300, 900},
+	simCheck(t, spec{Prop: "C10", Profiles: []string{"conf", "confread"}, On: []string{"C11"}, Steps: [2]int{300, 900},
 		RuleText: caseText + "non-trivial = a conf change was applied AND there was a second election, a restart, or a snapshot install",
 		Rule: func(c *sim.CaseStats) bool {
 			return has(c, "conf.applied") && (ge(c, "leader.elected", 2) || has(c, "restart", "snap.installed"))
